@@ -52,6 +52,9 @@ T = {
  "C18": dict(tech="TLC: once-cell model over all interleavings with liveness (MC_Once), pure-call history model (MC_Histories) with negatives; TLC-generated histories executed on real threads with forced hand-off; races in fresh processes validated by TLC (TraceThreads)",
              text="(MC) two dependent once-cells x 3 threads, all interleavings: single initialisation, readers see the complete value, no stuck state, termination under fairness; check-then-act initialisation is caught. Call histories over a 10-call menu (parameter sets sharing bit length or capacity, proofs with fixed RNG streams, verifications, generator accessors, a shared parameter object) are enumerated by TLC and executed with the same hand-off order on real threads; free-running threads behind a barrier in fresh processes race the first use of the statics. TLC validates every recorded return against the reference digest of the same call run alone in a fresh single-threaded process. Real schedules are sampled, not enumerated.",
              ref="§6 C18"),
+ "C19": dict(tech="TLC-checked transcript script, nonce-key layout and generator naming (Transcript.tla, MC_Nonce, MC_Generators) used in STRICT mode trace validation of the library's prover and verifier; golden vectors from the pinned release",
+             text="(a) 132 vectors recorded from the pinned 0.4.0 tree (7 bit lengths x 5 aggregation/capacity pairs x 4 degrees, seeded and unseeded, promises) must decode, verify (also under a different capacity) and yield the recorded masks. (b) strict-mode trace validation: every transcript operation of recorded prover and verifier runs must equal Transcript!Script (label byte strings, lengths, order, RNG rekey label, weight-transcript label), the table layout must be the interleaved one, the seed-derived nonces found in the proof points must equal the reference derivation whose key layout is printed by TLC from MC_Nonce, and generators must equal the derivation script printed from MC_Generators - a consistent prover+verifier change (renamed label, reordered absorption, different nonce index, different generator label) deviates from the specification even though prove-then-verify still passes. (c) the prover/verifier algebra in those traces is the published protocol (BPS2/BPVSteps == BPV!RefForm by T0-T2), i.e. the specification itself is the independent straight-from-the-paper implementation and the library's proofs are checked against it element by element.",
+             ref="§6 C19"),
  "C20": dict(tech="TLC: heap-block lifecycle model (Memory.tla) with a seeded unwiped-copy negative; tracing global allocator records every release during secret-handling scenarios in dev and release profiles; TLC validates the trace (TraceMemory)",
              text="A tracing global allocator scans every block released (dealloc/realloc) while the library handles secrets - drops of opening/witness/mask, seeded and unseeded prove, verify with recovery, recover-only, a prover error path - for the byte patterns of the seed, every blinding factor and 64-bit value; TLC accepts the trace only if no release carries a secret and the inline statement seed is gone after drop. Degrees 1..6, aggregation 1..4, 8- and 64-bit. Only heap blocks released during the scenarios are covered (not stack or registers).",
              ref="§6 C20"),
